@@ -17,8 +17,10 @@ are a `List α` (position i = "theta(i+1)") that all carry the same interval con
     calls `fireParameterChanged` only if at least one value differed;
   * `AbstractParametrizable::setParameterValue` (h:58-62): `Parameter::setValue`, then always
     `fireParameterChanged`.
-Not modelled: names/namespaces, aliasing, listeners, `valpha_` (the ratio cache of method 2 is
-rewritten completely by `fireParameterChanged` before it is read, and cannot be observed).
+Not modelled IN THIS FILE: names/namespaces, aliasing, listeners, `valpha_` (the ratio cache of
+method 2 is rewritten completely by `fireParameterChanged` before it is read), per-parameter
+constraints, copies: see `BppModel/SimplexObj.lean`, of which the objects of this file are the
+projection (`C19.value_model_is_projection`).
 -/
 namespace Bpp.Simplex
 open Bpp Scalar
@@ -27,7 +29,7 @@ variable {α : Type} [Scalar α]
 
 /-- outcomes other than normal return -/
 inductive Err where
-  | sum          -- `Exception("... Probabilities must equal 1")`            -> exc:bpp
+  | sum          -- `Exception("... Probabilities must equal 1")`, `DimensionException` -> exc:bpp
   | constraint   -- `ConstraintException`                                     -> exc:constraint
   | notfound     -- `ParameterNotFoundException`                              -> exc:notfound
   | ub           -- the C++ indexes a vector out of bounds (undefined)        -> never generated
@@ -290,7 +292,7 @@ base class has accepted the vector; before, it was assigned first and survived a
 empty vector returns at once (before, `dim - 1` wrapped around and `vValues[0]` was read). -/
 def oSetFrequencies (s : OSt α) (v : List α) : Except Err (OSt α) :=
   if v.length = 0 then .ok s                       -- `if (dim == 0) return;` (second repair)
-  else if v.length ≠ s.base.dim then .error .ub
+  else if v.length ≠ s.base.dim then .error .sum   -- `DimensionException` (third repair), a bpp::Exception
   else do
     let b ← setFrequencies s.base (orderedToProbs v 1)
     .ok ⟨b, v⟩
@@ -301,6 +303,7 @@ rejected by the base class stayed in the object; on success `fireParameterChange
 parameter changed) recomputed `vValues_` from the probabilities.  Returns the object after the
 call and the exception, if any. -/
 def oSetFrequenciesOrig (s : OSt α) (v : List α) : OSt α × Option Err :=
+  -- (a vector of another size is not described here: `SimplexObj.Obj.oSetFrequenciesUnchecked`)
   if v.length = 0 ∨ v.length ≠ s.base.dim then (s, some .ub)
   else
     match setFrequencies s.base (orderedToProbs v 1) with
